@@ -25,6 +25,25 @@ REGISTRY = {
         "assumptions": ["BTreeMap is a sorted, key-unique map (by_start/by_size modelled as one sorted run list)",
                         "precondition of the theorems: 16 < device sectors and device bytes < 2^64 (validate_device_size)"],
     },
+    "C17": {
+        "title": "opening arbitrary or damaged files fails cleanly",
+        "teq": [
+            {"engine": "mutimg", "quick": {}, "thorough": {"tier": "thorough"}, "oracle": True,
+             "mismatch_is_failure": False, "timeout": 3000,
+             "nontrivial": lambda case, res: not res.startswith("err invalid-metadata") and not res.startswith("fresh") and not res.startswith("note"),
+             "distinct_key": lambda case, res: res + case.split("mut=")[-1],
+             "what": "engine-built v1/v2/v3 images (flushed, killed, closed) mutated by 16 mutators (random bytes, bit flips, block swaps, duplicated/truncated extents, forged record fields, markers, journal slots and metadata re-checksummed with the real encoders, missing signature, almost-zero, legacy tombstones); real open in a child process (catch_unwind, 20 s watchdog, post-open probe workload) vs Model.Recovery.open_image: outcome, error kind, contents, values, free-space stats, and the file bytes after the open (also after a failed open)"},
+            {"engine": "img", "quick": {"n": 4}, "thorough": {"tier": "thorough"}, "oracle": True,
+             "mismatch_is_failure": False, "timeout": 3000,
+             "nontrivial": lambda case, res: res.startswith("ok") and "keys=-" not in res,
+             "distinct_key": lambda case, res: res,
+             "what": "unmutated engine-built images opened with TTL on and off"},
+        ],
+        "nontrivial_rule": "a case is one device image + open configuration; non-trivial = the open got past the metadata gate (mutants) / recovered at least one key (unmutated); distinct = distinct (outcome line, mutation kinds) by 64-bit hash",
+        "assumptions": ["blocks are 4096 bytes; the model reads an image file the same way the device is read",
+                        "post-open behaviour (every call on an opened store returns) is only observed (probe workload under catch_unwind), not proved",
+                        "the implementation-side oracle (no panic / no hang / no abort / unchanged on metadata-or-size rejection) is evaluated in a child process with a 20 s watchdog"],
+    },
 }
 
 
@@ -117,7 +136,7 @@ def run_property(pid, eng, tier, seed, t0):
             if not vlib.run_model(outdir):
                 corr_broken.append({"what": "modelrun failed on engine %s" % t["engine"]})
                 continue
-            cmp_ = vlib.compare(outdir, nontrivial=t.get("nontrivial"))
+            cmp_ = vlib.compare(outdir, nontrivial=t.get("nontrivial"), distinct_key=t.get("distinct_key"))
             nfail, fails = load_oracle_fails(outdir) if t.get("oracle") else (0, [])
             total_cases += cmp_["total"]
             distinct += cmp_["distinct"]
@@ -129,6 +148,9 @@ def run_property(pid, eng, tier, seed, t0):
                     extra = json.load(open(statp))
                 except Exception:
                     extra = {}
+            if not cmp_["nmismatch"] and not nfail:
+                import shutil
+                shutil.rmtree(os.path.join(outdir, "images"), ignore_errors=True)
             teq_reports.append({"engine": t["engine"], "what": t["what"], "cases": cmp_["total"],
                                 "mismatches": cmp_["nmismatch"], "oracle_failures": nfail,
                                 "wall_s": round(time.time() - t1, 1), "distribution": extra})
